@@ -169,3 +169,104 @@ Example C01_source_ex : wf (GGate 2 5 (GSquare 1 4 2)) = true /\ nonneg [3; 0; 6
   (exists st i, src_gate_run (GSquare 1 4 2) (gen_gate_init 2 5) (SLeaf 0) [3; 0; 6] =
                 Some (st, i, zrange (den (GGate 2 5 (GSquare 1 4 2))) 0 9)).
 Proof. exact source_ex. Qed.
+
+(* ------------------------------------------------------------------ *)
+(* HISTORIES of operations on one generator object - next(n) | reset() | queries | get_samples_remaining() in any
+   order (run_ops / run_gen, what the correspondence harness drives).  Vocabulary: Stim/SpecX.v, proofs: Stim/ProofsX*.v *)
+From PV Require Import Stim.SpecX Stim.ProofsX Stim.ProofsXRep.
+
+(* the integers run_ops prints are exactly the events of the structured run, and run_state is the state it continues
+   from: every repair set, generator, state and history (these tie run_evs / run_state to the harness-driven run_ops) *)
+Theorem C01_run_ops_flatten : forall R g ops s, run_ops R g s ops = flatten_evs (run_evs R g s ops).
+Proof. exact run_ops_flatten. Qed.
+Print Assumptions C01_run_ops_flatten.
+
+Theorem C01_run_ops_app : forall R g a b s s1, run_state R g s a = Some s1 ->
+  run_ops R g s (a ++ b) = run_ops R g s a ++ run_ops R g (Some s1) b.
+Proof. exact run_ops_app. Qed.
+Print Assumptions C01_run_ops_app.
+
+(* REFINEMENT: for every well-formed generator and EVERY history with non-negative counts, everything observable on
+   the object equals the reference run that keeps no object state, only pos = samples drawn since the last reset:
+   next(n) returns the whole-stream denotation on [pos, pos+n) and never raises, reset() sets pos 0, the queries are
+   functions of pos, get_samples_remaining() draws max(total - pos, 0) samples (raises for an infinite generator) *)
+Theorem C01_history_refines_position : forall g ops, wf g = true -> ops_nonneg ops = true ->
+  run_ops all_repaired g (greset all_repaired g) ops = flatten_evs (ref_run g 0 ops).
+Proof. exact history_refines_position. Qed.
+Print Assumptions C01_history_refines_position.
+
+Theorem C01_history_refines_position_evs : forall g ops, wf g = true -> ops_nonneg ops = true ->
+  run_evs all_repaired g (greset all_repaired g) ops = ref_run g 0 ops.
+Proof. exact history_refines_position_evs. Qed.
+Print Assumptions C01_history_refines_position_evs.
+
+(* after ANY history, reset() makes the object indistinguishable from a freshly built one *)
+Theorem C01_reset_replays : forall g h ops, wf g = true -> ops_nonneg h = true -> ops_nonneg ops = true ->
+  run_gen g (h ++ Reset :: ops) = run_gen g h ++ 3 :: run_gen g ops.
+Proof. exact reset_replays. Qed.
+Print Assumptions C01_reset_replays.
+
+(* per segment (the draws between two consecutive resets) the concatenated stream is the one-shot stream of the
+   segment's total, so two histories with the same per-segment totals give the same streams *)
+Theorem C01_history_streams : forall g h, wf g = true -> ops_nonneg h = true ->
+  seg_streams [] (run_evs all_repaired g (greset all_repaired g) h) = map (zrange (den g) 0) (seg_draws g 0 h).
+Proof. exact history_streams. Qed.
+Print Assumptions C01_history_streams.
+
+Theorem C01_history_chunk_invariant : forall g h1 h2, wf g = true -> ops_nonneg h1 = true -> ops_nonneg h2 = true ->
+  seg_draws g 0 h1 = seg_draws g 0 h2 ->
+  seg_streams [] (run_evs all_repaired g (greset all_repaired g) h1) =
+  seg_streams [] (run_evs all_repaired g (greset all_repaired g) h2).
+Proof. exact history_chunk_invariant. Qed.
+Print Assumptions C01_history_chunk_invariant.
+
+(* ... for histories of next / reset / queries the hypothesis is plain arithmetic on the requested counts *)
+Theorem C01_history_chunk_invariant_next : forall g h1 h2, wf g = true ->
+  ops_nonneg h1 = true -> ops_nonneg h2 = true -> no_rest h1 = true -> no_rest h2 = true ->
+  seg_sums 0 h1 = seg_sums 0 h2 ->
+  seg_streams [] (run_evs all_repaired g (greset all_repaired g) h1) =
+  seg_streams [] (run_evs all_repaired g (greset all_repaired g) h2) /\
+  seg_streams [] (run_evs all_repaired g (greset all_repaired g) h1) = map (zrange (den g) 0) (seg_sums 0 h1).
+Proof. exact history_chunk_invariant_next. Qed.
+Print Assumptions C01_history_chunk_invariant_next.
+
+(* RepeatFactory on what its input RETURNED: reset draws all lw samples of the input once (array w), stores rows
+   skip..skip+n-1 of length period carrying w at column sdelay (zero elsewhere), and every chunking then yields that
+   row stream, zero past the end; no draw changes the stored array or touches the input again *)
+Theorem C01_repeat_rows : forall n skip period sdelay g cs,
+  wf (GRepeat n skip period sdelay g) = true -> nonneg cs = true ->
+  exists i0 lw i1 w s1,
+    greset all_repaired g = Some i0 /\ remaining g i0 = Some lw /\
+    gnext all_repaired g i0 lw = Some (i1, w) /\ zlen w = lw /\
+    greset all_repaired (GRepeat n skip period sdelay g)
+      = Some (SRep 0 (zrange (repeat_row_stream n skip period sdelay w) 0 ((n + skip) * period)) i1) /\
+    run_chunks all_repaired (GRepeat n skip period sdelay g)
+      (SRep 0 (zrange (repeat_row_stream n skip period sdelay w) 0 ((n + skip) * period)) i1) cs
+      = Some (s1, zrange (repeat_row_stream n skip period sdelay w) 0 (sumZ cs)).
+Proof. exact repeat_rows. Qed.
+Print Assumptions C01_repeat_rows.
+
+Theorem C01_repeat_wave_fixed : forall R n skip period sdelay g o w i k,
+  gnext R (GRepeat n skip period sdelay g) (SRep o w i) k = Some (SRep (o + k) w i, fixed_next w o k).
+Proof. exact repeat_wave_fixed. Qed.
+Print Assumptions C01_repeat_wave_fixed.
+
+(* the fragment functions in the encoding the harness evaluates (run_envelope / run_sam / run_sqenv): exactly the
+   [offset, offset+samples) slice of the whole envelope; a rise longer than half the duration raises *)
+Theorem C01_fragment_runs :
+  (forall elb dur rise o n, 0 <= elb -> 0 <= rise -> 2 * rise <= dur -> 0 <= o -> 0 <= n ->
+     run_envelope elb dur rise o n = 1 :: enc_factors (zrange (env_at 0 elb dur rise) o n)) /\
+  (forall elb dur rise o n, dur < 2 * rise -> run_envelope elb dur rise o n = [2]) /\
+  (forall D o n, 0 <= D -> 0 <= o -> 0 <= n -> run_sam D o n = enc_factors (zrange (sam_at 0 D) o n)) /\
+  (forall P duty o n, Qle_bool 1 P = true -> 1 <= duty -> duty <= Qfloor P -> 0 <= o -> 0 <= n ->
+     run_sqenv P duty o n = enc_factors (zrange (sqenv_at 0 P duty) o n)).
+Proof. exact fragment_runs. Qed.
+Print Assumptions C01_fragment_runs.
+
+Example C01_history_ex : wf (GRepeat 2 1 12 2 (GSqEnv 4 (7 # 2) 2 (GEnv 2 0 8 2 (GCar 1)))) = true /\
+  ops_nonneg [Next 5; Query; Rest; Next 3; Reset; Next 0; Query; Next 40; Rest] = true /\
+  run_gen (GRepeat 2 1 12 2 (GSqEnv 4 (7 # 2) 2 (GEnv 2 0 8 2 (GCar 1))))
+          [Next 5; Query; Rest; Next 3; Reset; Next 0; Query; Next 40; Rest]
+  = flatten_evs (ref_run (GRepeat 2 1 12 2 (GSqEnv 4 (7 # 2) 2 (GEnv 2 0 8 2 (GCar 1)))) 0
+          [Next 5; Query; Rest; Next 3; Reset; Next 0; Query; Next 40; Rest]).
+Proof. vm_compute. repeat split; reflexivity. Qed.
